@@ -413,7 +413,7 @@ func (f *Factory) ApplyNotes(chain []int, notes []Note) ([]int, string) {
 
 // CheckHeaderViews checks the header-chain views against the naive walk from
 // the reported best header (C17).
-func (n *Node) CheckHeaderViews() string {
+func (n *Node) CheckHeaderViews(clean func(b int) bool) string {
 	f := n.F
 	hh, _ := n.Chain.BestHeader()
 	hid := f.ID(&hh)
@@ -437,8 +437,15 @@ func (n *Node) CheckHeaderViews() string {
 	}
 	for b := 0; b <= f.Sc.N; b++ {
 		h, isOn := on[b]
-		if got := n.Chain.IsValidHeader(f.Hash(b)); got != isOn {
-			return fmt.Sprintf("IsValidHeader(block %d)=%v but best header chain is %v", b, got, path)
+		// IsValidHeader: on the best header chain and not known to be invalid.
+		// A block whose whole ancestry is flawless and not manually
+		// invalidated can never be known invalid.
+		got := n.Chain.IsValidHeader(f.Hash(b))
+		if got && !isOn {
+			return fmt.Sprintf("IsValidHeader(block %d)=true but best header chain is %v", b, path)
+		}
+		if isOn && !got && clean(b) {
+			return fmt.Sprintf("IsValidHeader(block %d)=false for a valid block on the best header chain %v", b, path)
 		}
 		gh, err := n.Chain.HeaderHeightByHash(*f.Hash(b))
 		if isOn && (err != nil || int(gh) != h) {
